@@ -79,12 +79,12 @@ def mutations(src: str, lo: int, hi: int):
             swap = {ast.BitAnd: "|", ast.BitOr: "&", ast.Add: "-", ast.Sub: "+", ast.LShift: ">>", ast.RShift: "<<"}
             for t, sym in swap.items():
                 if isinstance(n.op, t):
-                    yield ln, f"binop->{sym}", splice(src, n, f"({ast.get_source_segment(src, n.left)} {sym} {ast.get_source_segment(src, n.right)})")
+                    yield ln, f"binop->{sym}", splice(src, n, f"(({ast.get_source_segment(src, n.left)}) {sym} ({ast.get_source_segment(src, n.right)}))")
         elif isinstance(n, ast.Compare) and len(n.ops) == 1:
             swap = {ast.Eq: "!=", ast.NotEq: "==", ast.Lt: "<=", ast.LtE: "<", ast.Gt: ">=", ast.GtE: ">", ast.In: "not in", ast.NotIn: "in", ast.Is: "is not", ast.IsNot: "is"}
             for t, sym in swap.items():
                 if isinstance(n.ops[0], t):
-                    yield ln, f"cmp->{sym}", splice(src, n, f"({ast.get_source_segment(src, n.left)} {sym} {ast.get_source_segment(src, n.comparators[0])})")
+                    yield ln, f"cmp->{sym}", splice(src, n, f"(({ast.get_source_segment(src, n.left)}) {sym} ({ast.get_source_segment(src, n.comparators[0])}))")
         elif isinstance(n, ast.UnaryOp) and isinstance(n.op, (ast.Invert, ast.Not)):
             yield ln, "drop-negation", splice(src, n, f"({ast.get_source_segment(src, n.operand)})")
         elif isinstance(n, ast.Constant) and id(n) not in docstrings:
